@@ -56,6 +56,8 @@ typedef struct {
   uint8_t site_shared[NSITES];  // frozen for the current pass
   uint8_t site_next[NSITES];    // discoveries
   volatile int new_sites;
+  volatile int envall;    // offer environment deviations at every unconditional scheduling point (no reduction)
+  volatile int nofilter;  // discovery pass: every instrumented access is a choice point
 } shared_t;
 
 typedef struct {
@@ -93,7 +95,7 @@ typedef struct {
   int hot;  // the fiber has been made runnable or is running: nobody else may touch its stack any more
   int id;
 } fstack_t;
-#define MAXFSTACK 32
+#define MAXFSTACK 256
 extern fstack_t fmc_fstacks[MAXFSTACK];
 extern int fmc_nfstacks;
 extern void* fmc_cur_ctx[MAXT];  // context currently executing on each kernel thread
